@@ -48,6 +48,9 @@ type vfSCase struct {
 	init                  map[int]int64 // db -> offset already stored for rid
 	lat                   int           // µs of virtual time the target takes per request (monitors only: not in the op line, not compared with the model)
 	prev                  map[int]int64 // db -> offset stored under the PREVIOUS run id (vfPrevId): StartPoint is asked with [rid, previous id] and must merge them (two-id lookup of GetCheckpoint)
+	delayKey              string        // SyncDelayTestKey (non-default option read by the parser): SET <key> <host>_<ns> feeds the delay gauge only
+	othName               bool          // a checkpoint hash of ANOTHER NAME (another syncer's) with this run id and a larger offset in a database: invisible
+	grid                  int           // dimension audit: index into the forced cross product (-1: none)
 	oth                   []string      // foreign records on the target: <db>:<run id>:<offset> (another id, possibly with rid as prefix)
 	raw                   [][][]byte
 	evs                   []vfSEv
@@ -152,6 +155,12 @@ func (c *vfSCase) opLine(tag int, ks []int) string {
 	if c.cancelAt > 0 {
 		fmt.Fprintf(&sb, " cancel=%d", c.cancelAt)
 	}
+	if c.delayKey != "" { // ignored by the model: the option only feeds a gauge
+		fmt.Fprintf(&sb, " sdk=%s", vfutil.HexS(c.delayKey))
+	}
+	if c.othName { // ignored by the model: a checkpoint of another NAME must be invisible
+		fmt.Fprintf(&sb, " othn=1")
+	}
 	if len(c.oth) > 0 { // ignored by the model: records of other run ids must be invisible
 		fmt.Fprintf(&sb, " oth=%s", strings.Join(c.oth, ","))
 	}
@@ -200,6 +209,7 @@ func (c *vfSCase) outputCfg() RedisOutputConfig {
 		KeepaliveTicker:            time.Duration(c.perK) * time.Microsecond,
 		UpdateCheckpointTicker:     time.Duration(c.perC) * time.Microsecond,
 		ReplayPipeline:             c.pipeline,
+		SyncDelayTestKey:           c.delayKey,
 		ReplayRdbParallel:          1,
 		Stats:                      config.OutputStats{DisableLog: true},
 	}
@@ -245,6 +255,15 @@ func vfSeedTarget(c *vfSCase) *vfdoubles.Target {
 	for db, off := range c.init {
 		// as checkpoint.SetCheckpoint writes it (end of a full sync / UpdateCheckpoint): with an mtime
 		tg.Seed(db, "hset", c.cp, c.rid+"_mtime", strconv.FormatInt(1700000000000000000+int64(db), 10), c.rid+"_runid", c.rid, c.rid+"_version", config.Version, c.rid+"_offset", strconv.FormatInt(off, 10))
+	}
+	if c.othName {
+		// another syncer's checkpoint (another NAME) for the same source id, far ahead, plus the index hash entries
+		for db := 0; db < 2; db++ {
+			tg.Seed(db, "hset", c.cp+"-other", c.rid+"_mtime", "1700000000000000777", c.rid+"_runid", c.rid, c.rid+"_version", config.Version, c.rid+"_offset", strconv.FormatInt(c.start+777777+int64(db), 10))
+		}
+		tg.Seed(0, "hset", config.CheckpointKeyHashKey, "rio"+c.rid[3:], c.cp+"-other")
+		// a non-empty database that holds data but no checkpoint hash (INFO keyspace lists it, fetchCheckpoint finds nothing)
+		tg.Seed(5, "set", "some-client-key", "v")
 	}
 	for _, o := range c.oth {
 		f := strings.Split(o, ":")
@@ -721,8 +740,46 @@ func vfGenCase(r *vfutil.Rand, idx int) *vfSCase {
 	if r.Chance(1, 8) {
 		c.fwl = []string{vfutil.Pick(r, []string{"k", "a"})}
 	}
+	// DIMENSION AUDIT (session 5): every 4th case takes its modes / options from a fixed cross product, so that
+	// combinations the independent draws meet rarely (pipeline x txn x resume x dbBlacklist x TargetDbMap x
+	// BatchCmdCount 1 / byte limit 1 x first item MULTI / SELECT / PING / data x keep-alive-only traffic) are all
+	// drawn: 768 combinations, 375 per quick run, the window moves with the seed
+	c.grid = -1
+	if idx%4 == 3 {
+		g := (idx/4 + int(vfutil.Seed()%768)*97) % 768
+		c.grid = g
+		c.pipeline, c.txn, c.resume = g&1 == 1, g>>1&1 == 1, g>>2&1 == 1
+		if g>>3&1 == 1 {
+			c.fdb = []int{vfutil.Pick(r, []int{1, 2, 3, 0})}
+		} else {
+			c.fdb = nil
+		}
+		if g>>4&1 == 1 {
+			c.tdb = -1
+			c.dbMap = map[int]int{vfutil.Pick(r, []int{0, 1, 2, 3}): vfutil.Pick(r, []int{0, 1, 2, 3, 11}), 10: 2}
+		} else {
+			c.dbMap = nil
+		}
+		switch (g >> 5) % 3 {
+		case 0:
+			c.bc = 1
+		case 1:
+			c.bb = 1
+		}
+	}
+	if r.Chance(1, 5) {
+		c.delayKey = "k1"
+	}
+	c.othName = c.resume && r.Chance(1, 4)
 	trip := vfutil.Pick(r, [][3]int{{3000000, 7001000, 11003000}, {1000000, 1501000, 2503000}, {2000000, 3001000, 5003000}, {500000, 30001000, 1203000}, {50001000, 1001000, 3503000}})
 	c.perB, c.perK, c.perC = trip[0], trip[1], trip[2]
+	// the DEFAULT proportions of the three tickers (config: batch 10 ms, keep-alive 3 s, checkpoint 1 s): the batch
+	// ticker fires hundreds of times between two keep-alives; the schedule of such a case is compressed below
+	// (horizon < 10 s: no two tickers due at one instant)
+	defTrip := r.Chance(1, 8)
+	if defTrip {
+		c.perB, c.perK, c.perC = 10000, 3001000, 1003000
+	}
 	c.start = vfutil.Pick(r, []int64{0, 1, 1000, 123456, 1000, 123456, 1<<31 - 60, 1<<32 - 25, 1 << 40, 1<<53 - 7})
 	// resumed-run flavour: start DB set, checkpoint already on the target
 	if r.Chance(1, 3) {
@@ -883,6 +940,40 @@ func vfGenCase(r *vfutil.Rand, idx int) *vfSCase {
 		pair := [][][]byte{{[]byte("SET"), []byte("k1"), big('A')}, {[]byte("set"), []byte("k2"), big('B')}}
 		c.raw = append(c.raw[:at:at], append(pair, c.raw[at:]...)...)
 	}
+	if r.Chance(1, 3) && c.delayKey != "" {
+		// the delay probe: SET <SyncDelayTestKey> <host>_<ns> (also a malformed number and a value without the separator)
+		at := r.Intn(len(c.raw) + 1)
+		pv := vfutil.Pick(r, []string{"h_1700000000000000000", "h_x", "a_b_c", "plain", "_"})
+		c.raw = append(c.raw[:at:at], append([][][]byte{{[]byte("SET"), []byte(c.delayKey), []byte(pv)}}, c.raw[at:]...)...)
+	}
+	if c.grid >= 0 {
+		if (c.grid/384)%2 == 1 {
+			// KEEP-ALIVE-ONLY traffic: the source is idle, nothing but pings / acks / sentinel hellos arrives
+			c.raw = nil
+			for i := r.Range(0, 6); i > 0; i-- {
+				switch r.Intn(3) {
+				case 0:
+					c.raw = append(c.raw, [][]byte{[]byte("PING")})
+				case 1:
+					c.raw = append(c.raw, [][]byte{[]byte("REPLCONF"), []byte("GETACK"), []byte("*")})
+				default:
+					c.raw = append(c.raw, [][]byte{[]byte("PUBLISH"), []byte("__sentinel__:hello"), []byte("x")})
+				}
+			}
+		}
+		var first [][][]byte
+		switch (c.grid / 96) % 4 {
+		case 0:
+			first = [][][]byte{{[]byte("MULTI")}, data(), {[]byte("EXEC")}}
+		case 1:
+			first = [][][]byte{{[]byte("SELECT"), []byte(strconv.Itoa(dbNum()))}}
+		case 2:
+			first = [][][]byte{{[]byte("PING")}}
+		default:
+			first = [][][]byte{data()}
+		}
+		c.raw = append(first, c.raw...)
+	}
 	// schedule: writes of 1..k commands at increasing times with gaps that are
 	// sometimes idle for several ticker periods (incl. before the first item)
 	t := 500
@@ -919,6 +1010,17 @@ func vfGenCase(r *vfutil.Rand, idx int) *vfSCase {
 	}
 	t += vfutil.Pick(r, []int{1000, 1000, 4000000, 15000000}) + 1000
 	c.evs = append(c.evs, vfSEv{t: t, close: true})
+	if defTrip {
+		t := 500
+		for i := range c.evs {
+			if c.evs[i].close {
+				t += vfutil.Pick(r, []int{1000, 300000, 900000}) + 1000
+			} else {
+				t += r.Range(0, 250)*1000 + 1000
+			}
+			c.evs[i].t = t
+		}
+	}
 	// the source connection is lost EARLY: the stream ends after m commands -- preferably between a MULTI
 	// and its EXEC -- and the run ends gracefully there (the Done case with an open source transaction:
 	// nothing of it may be sent, the position stays before it); the restarts read the whole stream
@@ -953,7 +1055,11 @@ func vfGenCase(r *vfutil.Rand, idx int) *vfSCase {
 			done += e.n
 			last = e.t
 		}
-		c.evs = append(evs, vfSEv{t: last + vfutil.Pick(r, []int{1000, 4000000, 15000000}) + 1000, close: true})
+		tail := vfutil.Pick(r, []int{1000, 4000000, 15000000})
+		if defTrip {
+			tail = vfutil.Pick(r, []int{1000, 300000, 900000})
+		}
+		c.evs = append(evs, vfSEv{t: last + tail + 1000, close: true})
 	}
 	return c
 }
@@ -1243,6 +1349,57 @@ func vfSenderCase(t *testing.T, s *vfutil.Session, r *vfutil.Rand, c *vfSCase, t
 
 	// ------------------------------------------------------------ coverage
 	s.Count("src_" + src)
+	if src == "gen" {
+		b2 := func(b bool) string {
+			if b {
+				return "1"
+			}
+			return "0"
+		}
+		s.Count("cfg_pipeline_" + b2(c.pipeline))
+		s.Count("cfg_txn_" + b2(c.txn))
+		s.Count("cfg_resume_" + b2(c.resume))
+		s.Count("cfg_mode_pl" + b2(c.pipeline) + "_txn" + b2(c.txn) + "_res" + b2(c.resume) + "_fdb" + b2(len(c.fdb) > 0) + "_map" + b2(len(c.dbMap) > 0))
+		s.Count("cfg_dbBlacklist_" + b2(len(c.fdb) > 0))
+		s.Count("cfg_targetDbMap_" + b2(len(c.dbMap) > 0))
+		s.Count("cfg_targetDb_" + b2(c.tdb != -1))
+		s.Count(fmt.Sprintf("cfg_batchCmdCount_%d", c.bc))
+		s.Count(fmt.Sprintf("cfg_batchBufferSize_%d", c.bb))
+		s.Count(fmt.Sprintf("cfg_tickers_%d_%d_%d", c.perB, c.perK, c.perC))
+		s.Count("cfg_cmdBlacklist_" + b2(len(c.fcmd) > 0))
+		s.Count("cfg_keyFilter_black" + b2(len(c.fpre) > 0) + "_white" + b2(len(c.fwl) > 0))
+		s.Count("cfg_syncDelayTestKey_" + b2(c.delayKey != ""))
+		s.Count("cfg_startDbId_" + b2(c.sdb >= 0))
+		s.Count("tgt_other_name_" + b2(c.othName))
+		s.Count("tgt_other_ids_" + b2(len(c.oth) > 0))
+		s.Count("tgt_preexisting_position_" + b2(len(c.init) > 0))
+		if c.grid >= 0 {
+			s.Count("grid_cases")
+		}
+		first := "none"
+		if len(c.raw) > 0 {
+			first = strings.ToLower(string(c.raw[0][0]))
+			switch first {
+			case "multi", "select", "ping", "exec":
+			default:
+				first = "other"
+			}
+		}
+		s.Count("in_first_item_" + first)
+		onlyKA := true
+		for _, cmd := range c.raw {
+			switch strings.ToLower(string(cmd[0])) {
+			case "ping", "replconf", "publish":
+			default:
+				onlyKA = false
+			}
+		}
+		s.Count("in_keepalive_only_traffic_" + b2(onlyKA))
+		s.Count("in_empty_stream_" + b2(len(c.raw) == 0))
+		if c.start == 0 {
+			s.Count("in_start_offset_0")
+		}
+	}
 	if len(c.prev) > 0 {
 		s.Count("two_id_targets")
 		if _, own := c.init[c.sdb]; !own {
@@ -1750,7 +1907,7 @@ func TestVerifSender(t *testing.T) {
 		vfSenderCase(t, s, r, vfParseCase(l), tag, "corpus")
 		tag++
 	}
-	n := vfutil.Scale(1500, 9500)
+	n := vfutil.Scale(1500, 7500)
 	for i := 0; i < n; i++ {
 		c := vfGenCase(r.Fork(), i)
 		vfSenderCase(t, s, r, c, tag, "gen")
@@ -1882,6 +2039,11 @@ func vfParseCase(op string) *vfSCase {
 		}
 	}
 	c.oth = list(kv["oth"], ",")
+	c.othName = kv["othn"] == "1"
+	if kv["sdk"] != "" {
+		c.delayKey = string(vfutil.UnHex(kv["sdk"]))
+	}
+	c.grid = -1
 	c.lat = atoi(kv["lat"])
 	c.cancelAt = atoi(kv["cancel"])
 	for _, cmd := range list(kv["raw"], ";") {
